@@ -92,6 +92,7 @@ class SpecFS:
         self.flushed = {}  # path -> (bytes at last successful flush/close, op index)
         self.touched = set()
         self.unknown = set()
+        self.deleted = set()
 
 def run_spec(tr, dev0, slot_of_vol, checks=("read", "state")):
     """replays the implementation's results against the byte-array model; returns (problems, spec)"""
@@ -162,7 +163,7 @@ def run_spec(tr, dev0, slot_of_vol, checks=("read", "state")):
             s11 = sfn_parse(unhexname(op[2]))
             if s11:
                 path = sp.dslot[op[1]] + "/" + s11.decode("latin-1").rstrip()
-                sp.files.pop(path, None); sp.flushed.pop(path, None); sp.touched.add(path)
+                sp.files.pop(path, None); sp.flushed.pop(path, None); sp.touched.add(path); sp.deleted.add(path)
         elif kind in ("write", "iowrite") and op[1] in sp.open:
             f = sp.open[op[1]]
             data = pattern(int(op[2]), int(op[3]))
